@@ -26,7 +26,7 @@ from .dag import Node
 BITS = 10
 BIAS = 1 << (BITS - 1)
 MASK = (1 << BITS) - 1
-NV = 64
+NV = 192
 BIAS_ALL = sum(BIAS << (BITS * i) for i in range(NV))
 
 
@@ -41,6 +41,7 @@ class Ctx:
         self.names = []
         self.index = {}
         self.rel = {}        # var idx -> LP  (v^2 -> LP)
+        self.lazy = set()    # relations applied only in the final zero test (keeps denominators monomial)
         self.relpow = {}
         self.nonzero = {}    # var idx -> reason: atoms that appear in denominators
         self.memo = {}
@@ -86,9 +87,13 @@ class Ctx:
         """Monomials built before later atoms were registered lack their bias; normalise."""
         return m
 
-    def add_relation(self, i, lp):
+    def add_relation(self, i, lp, lazy=None):
         self.rel[i] = lp
         self.relpow[i] = [None, lp]
+        if lazy is None:
+            lazy = self.kinds.get(i) != "var"
+        if lazy:
+            self.lazy.add(i)
 
     def mono_str(self, m):
         out = []
@@ -160,6 +165,17 @@ class LP:
         r = LP(self.ctx, t, self.den * o.den)
         if r.den.bit_length() > 256:
             r.normalize()
+        rel = self.ctx.rel
+        if rel and len(a) > 1:
+            lim = BIAS + 2
+            lazy = self.ctx.lazy
+            for i in rel:
+                if i in lazy:
+                    continue
+                sh = BITS * i
+                for m in t:
+                    if ((m >> sh) & MASK) >= lim:
+                        return r.reduce()
         return r
 
     def scale(self, q):
@@ -247,15 +263,16 @@ class LP:
         self._fix()
         return LP(self.ctx, {m + d: c for m, c in self.t.items()}, self.den)
 
-    def reduce(self, skip=()):
-        """Value-preserving rewriting of positive powers v^e (e >= 2) by the relations v^2 -> R_v."""
+    def reduce(self, skip=(), full=False):
+        """Value-preserving rewriting of positive powers v^e (e >= 2) by the relations v^2 -> R_v.
+        Lazy relations (trig pairs, unoriented square roots) are applied only with full=True."""
         ctx = self.ctx
         p = self
         changed = True
         while changed:
             changed = False
             for i, R in ctx.rel.items():
-                if i in skip:
+                if i in skip or (not full and i in ctx.lazy):
                     continue
                 if p.max_exp(i) < 2:
                     continue
@@ -286,7 +303,7 @@ class LP:
                 if lo < 0:
                     ctx.nonzero.setdefault(i, "inverted")
                     p = p.shift(i, -lo)
-            p = p.reduce()
+            p = p.reduce(full=True)
             if all(p.min_exp(i) >= 0 for i in ctx.rel):
                 break
         return p.is_zero()
@@ -354,7 +371,8 @@ class RF:
         n, d = self.n, self.d
         if n.is_zero():
             raise ZeroDivisionError("division by an identically zero expression")
-        n._fix()
+        if not n.single_term():
+            n = n.reduce()
         if n.single_term():
             for i in n.vars_used():
                 ctx.nonzero.setdefault(i, "denominator")
@@ -381,7 +399,7 @@ def _lin_key(rf):
     """Split a polynomial RF as c * primitive; return (c, key, primitive LP) or None."""
     if rf.d is not None:
         return None
-    p = rf.n.reduce().copy()
+    p = rf.n.reduce(full=True).copy()
     p.normalize()
     if not p.t:
         return None
@@ -461,7 +479,7 @@ def _new_trig(ctx, key, prim, c0):
 
 
 def _poly_key(lp):
-    p = lp.reduce().copy()
+    p = lp.reduce(full=True).copy()
     p.normalize()
     return (p.den, tuple(sorted(p.t.items())))
 
@@ -479,9 +497,9 @@ def _trig_multiple(ctx, info, k):
         s = sj * c1 + cj * s1
         c = cj * c1 - sj * s1
         if s.d is None:
-            s = RF(s.n.reduce())
+            s = RF(s.n.reduce(full=True))
         if c.d is None:
-            c = RF(c.n.reduce())
+            c = RF(c.n.reduce(full=True))
         cache[j + 1] = (s, c)
         j += 1
         if j >= 2:
@@ -661,11 +679,11 @@ def sqrt_rf(ctx, a, node):
         ctx.nonneg.add(i)
         return RF(ctx.var_lp(i))
     trigvars = set(i for i, k in ctx.kinds.items() if k in ("sin", "cos"))
-    for cand in (a.n, a.n.reduce(skip=trigvars)):
+    for cand in (a.n, a.n.reduce(), a.n.reduce(skip=trigvars, full=True)):
         rt = _monomial_root(ctx, cand)
         if rt is not None:
             return RF(rt)
-    an = a.n.reduce()
+    an = a.n.reduce(full=True)
     cv = an.const_value()
     if cv is not None and cv >= 0:
         rn, rd = _isqrt(cv.numerator), _isqrt(cv.denominator)
